@@ -13,11 +13,16 @@ RULE = ('random systems on Line/Square/Cube with 1..4 unknowns (scalar or vector
         'preset position / index_component; a malformed stream (conditions on non-trial functions, 2*u, u+v, grad(u), '
         'Dn(u), traces, two normals, indexed with normal, non-condition objects, wrong container types, lhs/rhs of '
         'the wrong form class, non-function trials/tests); multi-step histories (one pool of EssentialBC objects, the first on a '
-        'single face, used for 2-3 equations with permuted / extended trial lists, then repositioned by the caller).  One case = one EssentialBC(...) or Equation(...) call; '
+        'single face, used for 2-3 equations with permuted / extended trial lists, then repositioned by the caller); rebuilt models '
+        '(the same recipe of names built 2-3 times in one process from re-created domain / spaces / functions / conditions) and '
+        'conditions written with a re-created, equal element of the unknown\'s space.  One case = one EssentialBC(...) or Equation(...) call; '
         'non-trivial = a union is expanded, a position > 0 is assigned or a refusal is raised; distinct by request line')
 ASSUMPTIONS = [
     'sympy equality of functions (class and name) is what `variable in trials` / `trials.index` use; the '
-    'generator keeps names unique inside a system, so identity and equality coincide on the sampled inputs',
+    'generator keeps names unique inside a system; equal-but-distinct function objects are sampled on purpose '
+    '(conditions written with a re-created element of the same space, whole models rebuilt in one process, where '
+    'sympy\'s cache hands back the earlier equal object inside Dot / Grad): such a condition constrains the trial '
+    'function of that name, and `variable` is compared up to (class, name, space name, domain name)',
     'condition objects are mutable (set_position): the oracle runs multi-step histories in which the same EssentialBC '
     'objects are used for several equations and then repositioned by the caller, and re-reads every earlier equation',
     'Dot orders its arguments by their string representation: the model compares Dot nodes up to exchanging the '
@@ -30,7 +35,7 @@ KINDS = ['h1', 'h1', 'h1', 'undefined', 'hdiv', 'hcurl', 'l2']
 
 
 def mods():
-    from sympy import Tuple, Integer, Symbol, sin
+    from sympy import Tuple, Integer, Symbol, sin, sympify
     from sympde.topology import (Line, Square, Cube, ScalarFunctionSpace, VectorFunctionSpace, NormalVector, Union,
                                  Boundary)
     from sympde.topology.space import (ScalarFunction, VectorFunction, IndexedVectorFunction, Trace, trace_0, trace_1)
@@ -107,27 +112,36 @@ class System:
     """a domain, unknowns, test functions, extra (non-trial) functions and the two forms"""
     count = 0
 
-    def __init__(self, rng, m, forms=True):
-        System.count += 1
+    def __init__(self, rng, m, forms=True, recipe=None):
         self.m = m
-        k = System.count
-        r = rng.random()
-        dom = m['Cube'] if r < 0.5 else (m['Square'] if r < 0.9 else m['Line'])
-        self.domain = dom('Om%d' % k)
+        if recipe is None:
+            # the recipe (names and kinds only) is all that is drawn: `rebuild` re-creates the same model
+            # from NEW objects (domain, spaces, functions) that are equal to the old ones
+            System.count += 1
+            k = System.count
+            r = rng.random()
+            n = rng.choice([1, 1, 2, 2, 3, 4])
+            names = rng.sample(['u', 'p', 'w', 'E', 'B', 'phi', 'sigma', 'q', 'z'], n + 2)
+            tnames = rng.sample(['v', 'r', 't', 'F', 'G', 'psi', 'tau', 's', 'y'], n + 2)
+            recipe = dict(dom='Cube' if r < 0.5 else ('Square' if r < 0.9 else 'Line'), domname='Om%d' % k, n=n, fns=[])
+            for i in range(n + 2):
+                vec = rng.random() < 0.5
+                kind = rng.choice(KINDS)
+                recipe['fns'].append(dict(vec=vec, kind=kind, space='V%d_%d' % (k, i), u=names[i], v=tnames[i]))
+        self.recipe = recipe
+        self.domain = m[recipe['dom']](recipe['domname'])
         self.dim = self.domain.dim
         b = self.domain.boundary
         self.faces = list(b.args) if isinstance(b, m['Union']) else [b]
-        n = rng.choice([1, 1, 2, 2, 3, 4])
+        n = recipe['n']
         self.trials, self.tests, self.kinds = [], [], []
-        names = rng.sample(['u', 'p', 'w', 'E', 'B', 'phi', 'sigma', 'q', 'z'], n + 2)
-        tnames = rng.sample(['v', 'r', 't', 'F', 'G', 'psi', 'tau', 's', 'y'], n + 2)
         self.extra = []
-        for i in range(n + 2):
-            vec = rng.random() < 0.5 and self.dim > 1
-            kind = rng.choice(KINDS)
+        for i, f in enumerate(recipe['fns']):
+            vec = f['vec'] and self.dim > 1
+            kind = f['kind']
             cls = m['VectorFunctionSpace'] if vec else m['ScalarFunctionSpace']
-            V = cls('V%d_%d' % (k, i), self.domain, kind=kind)
-            u, v = V.element(names[i]), V.element(tnames[i])
+            V = cls(f['space'], self.domain, kind=kind)
+            u, v = V.element(f['u']), V.element(f['v'])
             if i < n:
                 self.trials.append(u)
                 self.tests.append(v)
@@ -148,6 +162,21 @@ class System:
             self.lhs_expr, self.rhs_expr = integral(self.domain, expr), integral(self.domain, rexpr)
             self.a = m['BilinearForm']((tuple(self.trials), tuple(self.tests)), self.lhs_expr)
             self.l = m['LinearForm'](tuple(self.tests), self.rhs_expr)
+
+    def rebuild(self):
+        """the same model built AGAIN, as a script looping over variants does: new domain, new spaces, new
+        functions (all with the same names, hence equal to the old objects but other Python objects)"""
+        return System(None, self.m, forms=self.a is not None, recipe=self.recipe)
+
+    def all_fns(self):
+        return self.trials + [e[0] for e in self.extra]
+
+    def transfer(self, d, S0):
+        """the declaration d of the system S0 (same recipe) written with THIS system's objects"""
+        d2 = dict(d)
+        d2['fn'] = self.all_fns()[[i for i, w in enumerate(S0.all_fns()) if w is d['fn']][0]]
+        d2['faces'] = [self.faces[S0.faces.index(f)] for f in d['faces']]
+        return d2
 
     def is_vec(self, u):
         return isinstance(u, self.m['VectorFunction'])
@@ -203,12 +232,24 @@ class System:
         comp = rng.randrange(self.dim) if shape == 'u[i]' else None
         pos0 = rng.choice([None] * 8 + [0, 7])
         ic0 = rng.choice([None] * 8 + [[0], [1]])
-        return dict(shape=shape, fn=u, comp=comp, faces=self.rand_faces(rng), rhs=self.rand_rhs(rng), pos0=pos0, ic0=ic0)
+        # sometimes the caller writes the condition with a RE-CREATED element of the same space (same name:
+        # equal to the trial function, but another Python object), as element_of(V, 'u') called twice does
+        twin = rng.random() < 0.12
+        return dict(shape=shape, fn=u, comp=comp, faces=self.rand_faces(rng), rhs=self.rand_rhs(rng), pos0=pos0, ic0=ic0,
+                    twin=twin)
+
+    def lhs_of(self, d):
+        """the left-hand side of a declaration, written with the declared function itself or (twin) with a
+        re-created equal element of its space"""
+        u = d['fn']
+        if d.get('twin'):
+            u = u.space.element(u.name)
+        return self.build_lhs(d['shape'], u, d['comp'])
 
     def make(self, d):
         """a fresh EssentialBC for a declaration"""
         m = self.m
-        lhs = self.build_lhs(d['shape'], d['fn'], d['comp'])
+        lhs = self.lhs_of(d)
         bnd = m['Union'](*d['faces'])
         kw = {}
         if d['pos0'] is not None:
@@ -275,7 +316,7 @@ def correspondence(ctx):
                 d = S.rand_decl(rng, pool_all)
                 label = d['shape']
                 try:
-                    lhs = S.build_lhs(d['shape'], d['fn'], d['comp'])
+                    lhs = S.lhs_of(d)
                 except Exception as e:   # the left-hand side itself cannot be written
                     c.count('unwritable:' + type(e).__name__)
                     continue
@@ -463,8 +504,24 @@ def correspondence(ctx):
 # --------------------------------------------------------------------------- oracle
 
 def decl_str(S, d):
-    return '%s[%s%s on %d face(s), rhs=%s]' % (d['shape'], d['fn'].name, '' if d['comp'] is None else ',%d' % d['comp'],
-                                                len(d['faces']), d['rhs'])
+    return '%s[%s%s%s on %d face(s), rhs=%s]' % (d['shape'], d['fn'].name, '' if d['comp'] is None else ',%d' % d['comp'],
+                                                  ' (written with a re-created equal element)' if d.get('twin') else '',
+                                                  len(d['faces']), d['rhs'])
+
+
+def same_fn(a, b):
+    """the oracle's own notion of 'the same function of the model' (not sympy's ==): the very object, or a
+    function of the same class and name in a space of the same name on a domain of the same name.  Inside one
+    system names are unique, so this is identity there; it differs from identity only when the caller
+    re-creates a function / rebuilds the model (then sympy's cache may hand back the earlier, equal object
+    inside grad(u), and `variable` legitimately is that object)."""
+    if a is b:
+        return True
+    try:
+        return (type(a) is type(b) and str(a.name) == str(b.name) and str(a.space.name) == str(b.space.name)
+                and str(a.space.domain.name) == str(b.space.domain.name))
+    except AttributeError:
+        return False
 
 
 def check_equation(o, S, decls, use_find, m):
@@ -530,7 +587,7 @@ def check_equation(o, S, decls, use_find, m):
             exp = dict(lhs=lhs, rhs=m['Integer'](d['rhs']) if isinstance(d['rhs'], int) else d['rhs'], order=order, variable=d['fn'],
                        index_component=ic, normal_component=normal, position=pos)
             for name in exp:
-                same = (obs[name] is exp[name]) if name == 'variable' else (obs[name] == exp[name])
+                same = same_fn(obs[name], exp[name]) if name == 'variable' else (obs[name] == exp[name])
                 if not same:
                     return key, 'entry of %s on %s has %s = %r, expected %r (%s)' % (
                         decl_str(S, d), f, name, obs[name], exp[name], sysd), det
@@ -647,7 +704,7 @@ def read_cond(b):
 
 def diff_cond(obs, exp):
     for name in exp:
-        same = (obs[name] is exp[name]) if name == 'variable' else (obs[name] == exp[name])
+        same = same_fn(obs[name], exp[name]) if name == 'variable' else (obs[name] == exp[name])
         if not same:
             return '%s = %r, expected %r' % (name, obs[name], exp[name])
     return None
@@ -718,6 +775,119 @@ def check_history(o, H, m):
     return None
 
 
+# --------------------------------------------------------------------------- rebuilt models
+
+class Rebuilt:
+    """ONE model (recipe: names and kinds of domain, spaces, functions; declared conditions) built 2-3 times one
+    after the other in the same process, every time from re-created objects (new domain, new spaces, new
+    functions, new conditions), as a script looping over mesh / parameter variants does.  The objects of a later
+    build are equal to those of the earlier builds (same names) but are other Python objects; every build uses
+    its own objects consistently.  A function of (rng, number) only."""
+
+    def __init__(self, rng, m, number, base=800000):
+        System.count = base + number
+        S = self.S = System(rng, m)
+        self.m = m
+        ncond = rng.choice([1, 2, 2, 3, 4])
+        self.decls = [S.rand_decl(rng) for _ in range(ncond)]
+        # mostly: at least one normal-derivative condition (the shape whose left-hand side is a cached
+        # Function application of the unknown) when one can be written for this system
+        cands = [u for u in S.trials if S.kind_of[id(u)] in ('h1', 'undefined')]
+        if cands and rng.random() < 0.75:
+            d = self.decls[rng.randrange(ncond)]
+            d['fn'], d['shape'], d['comp'] = rng.choice(cands), 'dn', None
+        for d in self.decls:
+            if rng.random() < 0.7:
+                d['twin'] = False
+        if rng.random() < 0.15:
+            self.decls[rng.randrange(ncond)] = S.rand_decl(rng, [e[0] for e in S.extra])
+        self.builds = [rng.random() < 0.25 for _ in range(rng.choice([2, 2, 3]))]     # through find?
+
+    def describe(self):
+        S = self.S
+        return dict(system='trials=%s dim=%d domain=%s' % ([u.name for u in S.trials], S.dim, S.domain.name),
+                    conditions=[decl_str(S, d) for d in self.decls],
+                    builds=['find' if f else 'Equation' for f in self.builds])
+
+
+def check_rebuilt(o, R, m):
+    """builds the model R.builds times from re-created objects; every build must satisfy the statement.
+    Returns (key, what) or None"""
+    for r, use_find in enumerate(R.builds):
+        S = R.S if r == 0 else R.S.rebuild()
+        decls = [S.transfer(d, R.S) for d in R.decls]
+        bad = check_equation(o, S, decls, use_find, m)
+        if bad:
+            return ('rebuilt:%s:build-%d' % (bad[0].split(':')[0], r),
+                    'build #%d of the same model in one process (every build creates its own domain, spaces, functions and '
+                    'conditions, with the same names): %s' % (r, bad[1]))
+        o.count('rebuilt:build-%d-ok' % r)
+    o.count('rebuilt:with-normal-derivative' if any(d['shape'] == 'dn' for d in R.decls) else 'rebuilt:without-normal-derivative')
+    return None
+
+
+def rebuilt_rng(tier, seed, i):
+    import random
+    return random.Random('C18/rebuilt/%s/%s/%d' % (tier, seed, i))
+
+
+def fixed_rebuilt(m):
+    """fixed corpus (stable keys): a Stokes-like model with the four admitted shapes, built twice from re-created
+    objects; and each admitted shape written with a re-created (equal) element of the unknown's space.
+    Yields (key, thunk returning None or a description of the failure)"""
+    def model(twin_shape=None):
+        D = m['Square']('Dfix18')
+        W = m['VectorFunctionSpace']('Wfix18', D)
+        V = m['ScalarFunctionSpace']('Vfix18', D)
+        w, z = W.element('w'), W.element('z')
+        u, v = V.element('u'), V.element('v')
+        nn = m['NormalVector']('nn')
+        f = list(D.boundary.args)
+        x = D.coordinates[0]
+        dot, grad = m['dot'], m['grad']
+        tw = lambda fn, shape: fn.space.element(fn.name) if twin_shape == shape else fn
+        # (shape, lhs, rhs, faces, order, unknown, components, normal flag)
+        given = [('u[i]', tw(w, 'u[i]')[0], 0, [f[0], f[1]], 0, w, [0], False),
+                 ('u.n', dot(tw(w, 'u.n'), nn), 0, [f[2], f[3]], 0, w, None, True),
+                 ('u', tw(u, 'u'), x, [f[0]], 0, u, None, False),
+                 ('dn', dot(grad(tw(u, 'dn')), nn), 0, [f[1], f[2], f[3]], 1, u, None, False)]
+        trials, tests = [w, u], [z, v]
+        bcs = [m['EssentialBC'](g[1], g[2], m['Union'](*g[3])) for g in given]
+        le = m['integral'](D, dot(w, z) + dot(grad(u), grad(v)) + u * v)
+        re_ = m['integral'](D, x * v + z[1])
+        try:
+            eq = m['find'](trials, forall=tests, lhs=le, rhs=re_, bc=bcs)
+        except Exception as e:
+            return 'find raises %s(%s) although every condition is on a trial function' % (type(e).__name__, e)
+        exp = []
+        for shape, lhs, rhs, faces, order, var, comp, normal in given:
+            pos = [k for k, t in enumerate(trials) if t is var][0]
+            exp += [(shape, lhs, m['sympify'](rhs), fc, order, var, comp, normal, pos) for fc in faces]
+        got = list(eq.bc or [])
+        if len(got) != len(exp):
+            return 'equation.bc has %d entries, the declarations account for %d' % (len(got), len(exp))
+        for b, (shape, lhs, rhs, fc, order, var, comp, normal, pos) in zip(got, exp):
+            ic = None if b.index_component is None else [int(i) for i in b.index_component]
+            obs = (b.lhs == lhs, b.rhs == rhs, b.boundary == fc, b.order, same_fn(b.variable, var), ic, bool(b.normal_component), b.position)
+            want = (True, True, True, order, True, comp, normal, pos)
+            if obs != want:
+                return 'entry for %s on %s: (lhs kept, rhs kept, face, order, unknown, components, normal, position) = %r, expected %r' % (
+                    shape, fc, obs, want)
+        return None
+
+    def twice():
+        for r in range(2):
+            bad = model()
+            if bad:
+                return 'build #%d: %s' % (r, bad)
+        return None
+    yield 'fixed:rebuilt-model', 'the same model (w[0], w.n, u, grad(u).n on a Square) built twice in one process from re-created objects', twice
+    for shape in ('u', 'u[i]', 'u.n', 'dn'):
+        yield ('fixed:recreated-function:' + shape,
+               'the condition %s written with a re-created element of the space (same name as the trial function)' % shape,
+               (lambda shape=shape: model(shape)))
+
+
 def history_rng(tier, seed, i):
     import random
     return random.Random('C18/history/%s/%s/%d' % (tier, seed, i))
@@ -753,6 +923,27 @@ def oracle(ctx, factor, seeds):
                    shape='u.n', kind=kind, vector=True, dim=S.dim)
         else:
             o.count('fixed-corpus:u.n:' + kind)
+    # fixed corpus: models built twice / conditions written with re-created equal functions
+    for key, what, th in fixed_rebuilt(m):
+        o.evaluations += 1
+        bad = th()
+        if bad:
+            o.fail(key, '%s: %s' % (what, bad), fixed=key)
+        else:
+            o.count(key)
+    # rebuilt models: the same recipe built 2-3 times from re-created objects (deterministic in (tier, seed, index))
+    count0 = System.count
+    for i in range((360 if ctx.thorough else 60) * factor):
+        try:
+            R = Rebuilt(rebuilt_rng(ctx.tier, ctx.seed, i), m, i)
+        except Exception as e:
+            o.count('rebuilt:unbuildable:' + type(e).__name__)
+            continue
+        o.evaluations += 1
+        bad = check_rebuilt(o, R, m)
+        if bad:
+            o.fail('%s:%d' % (bad[0], i), bad[1], rebuilt=i, scenario=R.describe())
+    System.count = count0
     # histories: shared condition objects across several equations (deterministic in (tier, seed, index))
     nhist = (1500 if ctx.thorough else 250) * factor
     count0 = System.count
@@ -781,6 +972,16 @@ def oracle(ctx, factor, seeds):
                 o.fail(bad[0], bad[1], **bad[2])
             if len(o.samples) < 3 and not bad and ncond >= 2 and k >= 0.2:
                 o.samples.append({'system': [u.name for u in S.trials], 'declared': [decl_str(S, d) for d in decls]})
+        # sometimes the same system is built again from re-created (equal) objects and the last list of
+        # declarations is written again with the new objects
+        if rng.random() < 0.25:
+            S2 = S.rebuild()
+            o.evaluations += 1
+            bad = check_equation(o, S2, [S2.transfer(d, S) for d in decls], rng.random() < 0.25, m)
+            if bad:
+                o.fail('rebuilt-system:' + bad[0], 'second build of the same system from re-created objects: ' + bad[1], **bad[2])
+            else:
+                o.count('rebuilt-system-ok')
         # malformed left-hand sides must be refused
         for j in range(per // 2):
             label, th = S.malformed_lhs(rng)
@@ -818,6 +1019,27 @@ def replay(ctx, path):
         except Exception as e:
             print('REPLAY: still failing: %s(%s)' % (type(e).__name__, e))
             return 1
+    if 'fixed' in det:
+        m = mods()
+        for key, what, th in fixed_rebuilt(m):
+            if key == det['fixed']:
+                bad = th()
+                if bad:
+                    print('REPLAY: still failing: %s: %s' % (what, bad))
+                    return 1
+                print('REPLAY: the fixed case %s passes now' % key)
+                return 0
+    if 'rebuilt' in det:
+        m = mods()
+        i = int(det['rebuilt'])
+        R = Rebuilt(rebuilt_rng(d.get('tier'), d.get('seed'), i), m, i)
+        print('REPLAY: rebuilt model #%d: %s' % (i, json.dumps(R.describe(), default=str)))
+        bad = check_rebuilt(Oracle(), R, m)
+        if bad:
+            print('REPLAY: still failing: %s' % bad[1])
+            return 1
+        print('REPLAY: the recorded rebuilt model passes now')
+        return 0
     if 'history' in det:
         m = mods()
         i = int(det['history'])
